@@ -86,7 +86,7 @@ def make_scenario(engine, prop, tier, seed, idx):
 
 def fresh_digest(prop, tier, seed, idx, timeout=300):
     """Digest of one scenario executed as the first thing in a fresh interpreter."""
-    env = dict(os.environ, VERIF_SEED=str(seed))
+    env = dict(os.environ, VERIF_SEED=str(seed), PYTHONHASHSEED='4242')      # another interpreter, another hash salt
     p = subprocess.run([os.path.join(ROOT, 'check'), prop, '--tier', tier, '--fresh-digest', str(idx)],
                        capture_output=True, text=True, env=env, timeout=timeout)
     for line in p.stdout.splitlines():
@@ -339,7 +339,7 @@ def run_check(prop, tier):
         # results must not depend on what the process did before: the digest obtained in a worker that had already executed
         # other scenarios is compared with the digest of the same scenario run first in a fresh interpreter
         cand = [i for i in sorted(results) if results[i]['history_before'] and not results[i]['harness'] and not results[i]['violations']]
-        k_fresh = 16 if tier == 'quick' else 160
+        k_fresh = 48 if tier == 'quick' else 400
         step = max(1, len(cand) // k_fresh)
         pick = (nondet + cand[::step])[:k_fresh + len(nondet)]
         import concurrent.futures as _cf
